@@ -16,7 +16,7 @@ struct Elem
 {
     static long constructed, destroyed, throw_at, seq; static std::vector<long> live_ids, dtor_ids; static long double_destroy;
     static std::size_t blk_lo, blk_hi; static long outside;   // the object's block while a case runs: elements built in upstream memory must lie inside it
-    long id;
+    long id; long pad_[2] = {0, 0};   // sizeof(Elem) = 24 > alignof(Elem) = 8: a bump by the alignment instead of the size shows
     void where() { auto& U = verif::up(); if (U.inside(this)) { std::size_t o = U.off(this); bool ok = false; for (auto& b : U.blocks) if (b.live && b.off <= o && o + sizeof(Elem) <= b.off + b.size) { ok = true; break; } if (!ok) ++outside; } }
     static std::string ev;   // the events of the case in order: A/F node obtained / given back, C<id> D<id> element built / destroyed, T throw
     static void note(char k, long i) { char b[24]; if (i) std::snprintf(b, sizeof b, "%s%c%ld", ev.empty() ? "" : ",", k, i); else std::snprintf(b, sizeof b, "%s%c", ev.empty() ? "" : ",", k); ev += b; }
@@ -120,7 +120,7 @@ template <class F>
 static void run_case(std::size_t cap, long throw_at, const std::string& post, std::string& log)
 {
     using T = JT<F>; auto& U = up(); char buf[160];
-    std::snprintf(buf, sizeof buf, " sT=%zu aT=%zu eS=%zu", sizeof(T), alignof(T), sizeof(Elem)); log += buf;
+    std::snprintf(buf, sizeof buf, " sT=%zu aT=%zu eS=%zu eA=%zu", sizeof(T), alignof(T), sizeof(Elem), alignof(Elem)); log += buf;
     Elem::reset_counters(throw_at);
     up_alloc leaf;
     const char* ex = nullptr;
